@@ -1772,10 +1772,11 @@ func (e *Entry) DefaultValues() []string {
 	}
 
 	if typ := e.Type; typ != nil && typ.HasDefault {
-		switch leaf := e.Node.(type) {
+		switch e.Node.(type) {
 		case *Leaf:
 			switch {
-			case e.IsLeaf() && (leaf.Mandatory == nil || leaf.Mandatory.Name == "false"), e.IsLeafList() && e.ListAttr.MinElements == 0:
+			// (the entry's own Mandatory, which a deviation may have changed)
+			case e.IsLeaf() && e.Mandatory != TSTrue, e.IsLeafList() && e.ListAttr.MinElements == 0:
 				return []string{typ.Default}
 			}
 		}
